@@ -647,7 +647,9 @@ private theorem nodeWrites_fresh (d : DbCfg) (l : List (Event × Nat)) (c n : Na
 `n` of the run between the opening of the database and its finalisation: if that call raises, the
 file is in the working directory, closed, marked unsuccessful, and holds every snapshot completed
 before the failure plus the `error` snapshot of the state at the failure, at the current
-(cycle, node).  No freshness hypothesis: node snapshots have an empty label, whose names end in a
+(cycle, node).  The KIND of abort plays no role: `Operator.__exit__` runs the error hooks for anything
+that leaves `with o:` (ordinary exceptions, `SystemExit`, `KeyboardInterrupt`), so the model has a single
+crash path; the tie injects all three kinds.  No freshness hypothesis: node snapshots have an empty label, whose names end in a
 digit, so the `error` snapshot never collides with one (`name_fresh`, for all numbers). -/
 theorem crash_file_spec (d : DbCfg) (n : Nat) (e : Event) (he : (run d.cfg)[n]? = some e)
     (hopened : (((run d.cfg).take n).zipIdx).all (fun ie => !opens d ie.1) = false)
